@@ -304,9 +304,7 @@ class Impl(object):
                 self.closed = True
                 # The property says close() fails ALL pending requests, not in which order: the ClientError firings of
                 # one close() call are put into the model's order (newest request first) before anything is compared.
-                pos = [i for i in range(i0, len(log)) if log[i][0] == "def" and log[i][2] == 4]
-                for i, e in zip(pos, sorted((log[i] for i in pos), key=lambda e: -e[1])):
-                    log[i] = e
+                self._sort_close(log, i0)
                 d.addCallback(lambda _: self.log.append(("closefired",)))
         elif k == "disc":
             self.client.disconnect()
@@ -315,6 +313,11 @@ class Impl(object):
                 self.client.updateMetadata(self.BrokerMetadata(1 if ev[1] else 2, "h%d" % ev[2], 9092 + ev[2]))
             except ValueError:
                 log.append(("raised", 3))
+
+    def _sort_close(self, log, i0):
+        pos = [i for i in range(i0, len(log)) if log[i][0] == "def" and log[i][2] == 4]
+        for i, e in zip(pos, sorted((log[i] for i in pos), key=lambda e: -e[1])):
+            log[i] = e
 
     def _canon(self, log):
         outs = []
